@@ -15,7 +15,7 @@ one() {
     out=$(cd $V && VF_REPO=$WT ./check $P 2>&1); rc=$?
     echo "$n $P exit=$rc $(echo "$out" | grep -c '^VIOLATION') violations $(echo "$out" | grep -c 'UNDECIDED') undecided"
   else echo "$n $P exit=9 patch-does-not-apply"; fi
-  git -C /repo worktree remove --force $WT >/dev/null 2>&1; rm -rf $WT; rm -rf $V/.cache/*-src-$(echo -n $WT | sha1sum | cut -c1-8) $V/.cache/tgt-*-$(echo -n $WT | sha1sum | cut -c1-8)
+  git -C /repo worktree remove --force $WT >/dev/null 2>&1; rm -rf $WT; rm -rf $V/.cache/evidence-$(echo -n $WT | sha1sum | cut -c1-8) $V/.cache/replays-$(echo -n $WT | sha1sum | cut -c1-8) $V/.cache/*-src-$(echo -n $WT | sha1sum | cut -c1-8) $V/.cache/tgt-*-$(echo -n $WT | sha1sum | cut -c1-8)
 }
 export -f one
 echo $DIRS | tr ' ' '\n' | xargs -P $J -I{} bash -c "one {} $V"
